@@ -282,7 +282,14 @@ BATCH = {'csep-csv': 150, 'jma-csv': 150, 'zmap': 150, 'ingv_horus': 100, 'ndk':
 
 
 def cases(tier, seed):
-    yield from space.with_time_zones(_cases(tier, seed), 12)
+    base = []
+    for c in space.with_time_zones(_cases(tier, seed), 12):
+        if 'tz' not in c:
+            base.append(c)
+        yield c
+    # the file name handed over as a pathlib.Path: the plain block of every format and every 12th case of the enumeration
+    for c in [c for c in base if c.get('block') == 'plain'] + base[5::12]:
+        yield dict(c, pathform='Path')
 
 
 def _cases(tier, seed):
@@ -352,6 +359,9 @@ def _workdir():
     return d
 
 
+_PATHFORM = ['str']         # how the file name is handed to the loader in the current case: 'str' | 'Path' (pathlib.Path)
+
+
 def observe(fmt, text):
     """Run the real loader on a file holding `text`. Returns ('ok', events) with events = list of
     (lon, lat, depth, mag, origin_time_ms) in catalog order, or ('exc', type name, message)."""
@@ -363,7 +373,8 @@ def observe(fmt, text):
     try:
         with open(os.devnull, 'w') as dn, contextlib.redirect_stdout(dn):
             try:
-                cat = csep.load_catalog(path, type=fmt)
+                import pathlib
+                cat = csep.load_catalog(pathlib.Path(path) if _PATHFORM[0] == 'Path' else path, type=fmt)
                 n = int(cat.event_count)
                 lons = [float(x) for x in cat.get_longitudes()]
                 lats = [float(x) for x in cat.get_latitudes()]
@@ -589,6 +600,21 @@ def _shrink_window(fmt, spec, lo, k, fld, counters):
 
 
 def run_case(case):
+    fmt = case['fmt']
+    _PATHFORM[0] = case.get('pathform', 'str')
+    try:
+        r = _run_case(case)
+    finally:
+        _PATHFORM[0] = 'str'
+    if case.get('pathform'):
+        for f in r['failures']:
+            f['signature'] += ',file-name-as-' + case['pathform']
+            if isinstance(f.get('case'), dict):
+                f['case'] = dict(f['case'], pathform=case['pathform'])
+    return r
+
+
+def _run_case(case):
     fmt = case['fmt']
     failures = []
     counters = {}
